@@ -255,15 +255,17 @@ def ring_protocol(repo, tier="quick"):
     resets = [d for d in defs if d not in from_table]
     (obs.append(ob_ok(oid2, fi, from_table[0].ast, construct="symbol: pending ring order = table[token]", instance="symbol", reason="a symbol in front of a marker is that ring bond's order")) if from_table else
      obs.append(ob_fail(oid2, fi, construct="no `pending ring order = table[token]`", instance="symbol", reason="ring bond order symbols are not read")))
-    site_loops = [enclosing_loops(fi, s["node"].id) for s in M.sites]
-    loop = site_loops[0][0] if site_loops and site_loops[0] else None
+    loop = _scan_loop(M)
     if loop is None:
         obs.append(ob_undecided(oid2, fi, construct="marker scan loop", instance="reset", reason="ring sites are not inside a scan loop"))
         return obs
-    in_loop_resets = {d.node for d in resets if enclosing_loops(fi, d.node) and enclosing_loops(fi, d.node)[0].id == loop.id}
+    # between two completions the pending order is reset on every path: from a site, no site (itself included) is reachable
+    # without passing a reset (the one after the marker, or the per-node one in front of the next scan)
+    reset_nodes = {d.node for d in resets}
+    site_nodes = {s_["node"].id for s_ in M.sites}
     for site in M.sites:
-        reach = cfg.reachable_from(site["node"].id, avoid=in_loop_resets, edge_filter=lambda a, b, l: l != "exc")
-        ok = bool(in_loop_resets) and loop.id not in reach
+        reach = cfg.reachable_from(site["node"].id, avoid=reset_nodes, edge_filter=lambda a, b, l: l != "exc")
+        ok = bool(reset_nodes) and not (reach & site_nodes)
         (obs.append(ob_ok(oid2, fi, site["ast"], construct="after a marker: pending ring order = default", instance="reset", reason="the next marker does not inherit this one's order")) if ok else
          obs.append(ob_fail(oid2, fi, site["ast"], construct="pending ring order not reset after a marker", instance="reset",
                             reason="a second ring marker on the same node inherits the order written for the first")))
@@ -298,17 +300,19 @@ def ring_protocol(repo, tier="quick"):
 
 
 def _scan_loop(model):
-    """the for loop that scans the characters behind a node for ring markers: the innermost for loop around the inline sites"""
+    """the for loop that scans the characters behind a node for ring markers: the innermost `for` loop around the inline sites
+    (a completion site behind the loop, for a marker that ends the text, is in the enclosing loop only and does not count)"""
     fi = model.fi
-    loops = []
+    count = {}
     for site in model.sites:
         ls = [l for l in enclosing_loops(fi, site["node"].id) if l.kind == "for"]
         if ls:
-            loops.append(ls[0])
-    ids = {l.id for l in loops}
-    if len(ids) != 1:
+            count.setdefault(ls[0].id, [ls[0], 0])[1] += 1
+    if not count:
         return None
-    return loops[0]
+    # the scan loop is nested inside the per-node loop: prefer the deepest one
+    best = sorted(count.values(), key=lambda c: (-len(enclosing_loops(fi, c[0].id)), -c[1]))
+    return best[0][0]
 
 
 def ring_marker_text(repo, tier="quick"):
@@ -336,6 +340,8 @@ def ring_marker_text(repo, tier="quick"):
                 parent_body = b
     need(parent_body is not None, "ring scanning loop has no parent block", fi, lp.ast)
     idx = parent_body.index(lp.ast)
+    site_asts = {id(x["ast"]) for x in model.sites}
+    post = [st for st in parent_body[idx + 1:] if any(id(sub) in site_asts for sub in ast.walk(st))]
     pre = []
     for st in reversed(parent_body[:idx]):
         if isinstance(st, ast.Assign) and all(isinstance(t, ast.Name) for t in st.targets) and isinstance(st.value, (ast.Constant, ast.Name)):
@@ -366,6 +372,10 @@ def ring_marker_text(repo, tier="quick"):
         ("%12[", {}, {12: ("CUR", 1)}, []),
         ("%12%34)", {}, {12: ("CUR", 1), 34: ("CUR", 1)}, []),
         ("%12}", {}, {12: ("CUR", 1)}, []),
+        ("%12", {}, {12: ("CUR", 1)}, []),
+        ("=%12", {}, {12: ("CUR", 2)}, []),
+        ("1", {}, {1: ("CUR", 1)}, []),
+        ("%12", {12: [N0, 3]}, {}, [("CUR", "N0", 3)]),
         ("=1[", {}, {1: ("CUR", 2)}, []),
         ("=%12[", {}, {12: ("CUR", 2)}, []),
         ("1=2[", {}, {1: ("CUR", 1), 2: ("CUR", 2)}, []),
@@ -407,7 +417,7 @@ def ring_marker_text(repo, tier="quick"):
         ev = Evaluator(load_hook=load, call_hook=hook)
         n += 1
         try:
-            ev.block(pre + [lp.ast], env)
+            ev.block(pre + [lp.ast] + post, env)
         except Raised as r:
             bad.append((tail, before, "raises " + r.exc_name))
             continue
